@@ -56,12 +56,13 @@ class LoopInv:
 
 
 class ClassSchema:
-    def __init__(self, name, module, fields, invariant=None, record=False, keys=None, abstract=False):
+    def __init__(self, name, module, fields, invariant=None, record=False, keys=None, abstract=False, ctx=False):
         self.name = name
         self.module = module
         self.fields = fields          # name -> kind string
         self.record = record          # JSON-like dict accessed by x['key']
         self.abstract = abstract      # no direct instances
+        self.ctx = ctx                # usable as a context manager: enter returns the object, exit not modelled
         self.kinds = {}
 
     def kind(self, reg, f):
